@@ -215,6 +215,47 @@ def run(ctx, res):
                                       ctor={"normalize_names": norm}, expected=exp, actual=py_of_impl(r["ok"]) if "ok" in r else r, oracle="td_denote")
                     else:
                         res.nontrivial.add(t + str(norm) + mode)
+    # ---- CREATE TYPE ... AS OBJECT (attributes): expected value = the extracted Coq denote (C18_object_type_exact) -------------------------
+    if ctx.model:
+        plain = ["my_type", "Status", "addr", "t1", "x_9", "[Dev]", "`bt`", "MixedCase", "lvl"]
+        obases = ["OBJECT", "object", "Object", "ObJeCt", "record", "ENUM", "[object]"]
+        anames = ["street", "zip", "Amount", "f1", "x_y", "[q]", "`b`", "note"]
+        atypes = ["int", "varchar", "numeric", "date", "VARCHAR2", "decimal", "text"]
+        tos = []
+        for i in range(500 if ctx.thorough else 100):
+            attrs = []
+            for _ in range(rng.choice([1, 1, 2, 3, 4, 7])):
+                k = rng.randrange(3)
+                attrs += [rng.choice(anames), rng.choice(atypes), (str(rng.choice([1, 10, 255, 4000])) if k else ""), (str(rng.choice([0, 2, 4])) if k == 2 else "")]
+            tos.append([kwc(rng, "CREATE"), kwc(rng, "TYPE"), rng.choice(["", "", "s", "Dev", "[Dev]"]), rng.choice(plain), kwc(rng, "AS"), rng.choice(obases)] + attrs)
+        for norm in (False, True):
+            sp = ctx.model.map([("to_spec", ["1" if norm else "0"] + a) for a in tos])
+            texts = []
+            for s_ in sp:
+                if "lexemes" not in s_:
+                    texts.append(None)
+                    continue
+                out = ""
+                for rule, tx in s_["lexemes"]:
+                    out += tx if (tx in (".", ",", ")") or out.endswith(".") or out.endswith("(")) else ((" " if out else "") + tx)
+                texts.append(out + ";")
+            for mode in ("sql", "bigquery"):
+                R5 = ctx.impl.map([{"op": "run", "ddl": t or "", "ctor": {"normalize_names": norm}, "run": {"output_mode": mode}} for t in texts])
+                res.evaluations += len(tos)
+                for a, s_, t, r in zip(tos, sp, texts, R5):
+                    if not s_.get("wf"):
+                        res.count("to_form:not_wf")
+                        continue
+                    res.count("to_form:wf")
+                    got = canon_impl(r["ok"]) if "ok" in r else ("raise", r.get("raise"))
+                    exp = s_["denote"]
+                    if mode == "bigquery" and exp.get("schema"):
+                        exp = dict([(k, v) for k, v in exp.items() if k != "schema"] + [("dataset", exp["schema"])])
+                    if got != ("list", (canon_model(exp),)):
+                        res.violation("input", "object type entity differs from the Coq specification (denote) in mode %s" % mode, ddl=t,
+                                      ctor={"normalize_names": norm}, expected=exp, actual=py_of_impl(r["ok"]) if "ok" in r else r, oracle="to_denote")
+                    else:
+                        res.nontrivial.add(t + str(norm) + mode)
     res.samples.append({"ddl": cases[0][1], "expected": cases[0][2]})
     res.samples.append({"ddl": cases[6][1], "expected": cases[6][2]})
 
